@@ -27,8 +27,7 @@ theorem shapeTake_eq_spec (s : Shape) (n k : Nat) (hk : k < s.length) :
   simp [List.set_eq_take_append_cons_drop, hk]
 
 theorem takeEntry_nat (ind : List Int) (x j : Nat) (h : ind[x]? = some (j : Int)) : takeEntry ind x = j := by
-  have : ¬ ((j : Int) < 0) := by omega
-  simp [takeEntry, h, this]
+  simp [takeEntry, h, i2u_nat]
 
 theorem indexTake_eq (d : Idx) (ind : List Int) (k x j : Nat) (hx : d[k]? = some x) (hj : ind[x]? = some (j : Int)) :
     indexTake d ind (k : Int) = d.set k j := by
